@@ -10,7 +10,7 @@ def run(ctx):
         run_coll(ctx, 0, 10, "split", oracle_props=["C01", "C16"], label="split-buffers")
     except ImportError:
         pass
-    return run_arena_property(ctx, ["BumpProof.Props.C01", "BumpProof.Props.Hist@C01"],
+    return run_arena_property(ctx, ["BumpProof.Props.C01", "BumpProof.Props.Hist@C01", "BumpProof.Props.Targets@C01"],
         runs_quick=[('general', 120, 100), ('prepared', 40, 100), ('scopes', 40, 100)],
         runs_thorough=[('general', 6000, 200), ('prepared', 2000, 200), ('scopes', 2000, 200), ('faults', 2000, 200)],
         fields=(0, 2, 5), extra_oracles=(),
